@@ -328,7 +328,7 @@ fn transform_modifiers(modifiers: BTreeSet<Atom>, quote_prop: bool) -> Option<Ex
                 .into_iter()
                 .map(|modifier| {
                     PropOrSpread::Prop(Box::new(Prop::KeyValue(KeyValueProp {
-                        key: if quote_prop {
+                        key: if quote_prop || !is_identifier_name(&modifier) {
                             PropName::Str(quote_str!(modifier))
                         } else {
                             PropName::Ident(quote_ident!(modifier))
@@ -342,6 +342,12 @@ fn transform_modifiers(modifiers: BTreeSet<Atom>, quote_prop: bool) -> Option<Ex
                 .collect(),
         }))
     }
+}
+
+/// Whether `text` can be written as an unquoted object key.
+fn is_identifier_name(text: &str) -> bool {
+    let mut chars = text.chars();
+    chars.next().map(Ident::is_valid_start).unwrap_or_default() && chars.all(Ident::is_valid_continue)
 }
 
 fn parse_v_slots_directive(jsx_attr: &JSXAttr) -> Directive {
